@@ -147,6 +147,13 @@ def summarize(exe, st, f, bb, callee, args, dest_ty):
             exe.oblige(st, z3.BoolVal(False), "panic", f.name, bb, "unwrap on None", tag="unwrap")
             return []
         return None
+    if re.search(r"Option::<.*>::unwrap_or$", c):
+        v = args[0]
+        if isinstance(v, VAgg) and v.variant == "Some":
+            return [(st, v.fields[0])]
+        if isinstance(v, VAgg) and v.variant == "None":
+            return [(st, args[1])]
+        return None
     if re.search(r"Option::<.*>::(is_some|is_none)$", c):
         v = _deref_all(exe, st, args[0])
         if isinstance(v, VAgg):
